@@ -69,3 +69,27 @@ Fixpoint norm (lets : list (string * string)) (e : texpr) : texpr :=
   | TPt l => TPt (map (norm lets) l) | TTup l => TTup (map (norm lets) l)
   | _ => e
   end.
+
+(* the shape of an invocation form: what is positional, what is a keyword, what is a bracketed vector, where the children go *)
+Inductive dshape := DKw (kw : string) | DPos | DKwVec (kw : string) (n : nat) | DVec (n : nat) | DChildren.
+Definition shape_of (it : pitem) : dshape :=
+  match it with
+  | PKw kw _ => DKw kw | PPos _ => DPos | PKwVec kw vs => DKwVec kw (List.length vs) | PVec vs => DVec (List.length vs) | PChildren => DChildren
+  end.
+Definition dshape_eqb (a b : dshape) : bool :=
+  match a, b with
+  | DKw x, DKw y => String.eqb x y
+  | DPos, DPos | DChildren, DChildren => true
+  | DKwVec x n, DKwVec y m => String.eqb x y && Nat.eqb n m
+  | DVec n, DVec m => Nat.eqb n m
+  | _, _ => false
+  end.
+Fixpoint dshapes_eqb (a b : list dshape) : bool :=
+  match a, b with
+  | [], [] => true
+  | x :: a', y :: b' => dshape_eqb x y && dshapes_eqb a' b'
+  | _, _ => false
+  end.
+(* a documented form is matched by an arm of the same macro with the same shape *)
+Definition doc_has_arm (arms : list marm) (d : string * string * list dshape) : bool :=
+  let '(m, _, sh) := d in existsb (fun a => String.eqb (m_macro a) m && dshapes_eqb (map shape_of (m_pattern a)) sh) arms.
